@@ -175,6 +175,47 @@ def run(repo, check):
     share(check, repo, c02.rule_r1, 'C10.R7', 'encoding the reduced message: what the encoder writes is what the decoder reads (shared with C02.R1)', args=(check.tier,))
     share(check, repo, c02.rule_r2, 'C10.R8', 'encoding the reduced message: round before int (shared with C02.R2)')
     share(check, repo, c02.rule_r3, 'C10.R9', 'encoding the reduced message: missing = all ones of the width written (shared with C02.R3)')
+    check.run_rule(rule_overrides, repo)
     share(check, repo, c01.rule_r7, 'C10.R10', 'missing detection when the reduced message is read back (shared with C01.R7)')
     check.assumptions = ['the values of a decoded message are the rows of decoded_values_all_subsets (C01/C03); re-compression of the reduced columns is C05',
                          'validity of the re-encoded bytes for a particular message is a runtime fact']
+
+
+def rule_overrides(repo, rule='C10.R11'):
+    """Folds Encoder.__init__ twice in one interpreter: an encoder created with a master-table override, then a plain one.  The plain
+    encoder must override nothing, or the identification section of every message it encodes (a subset, say) is rewritten."""
+    from sa.patheval import Interp, Obj, Top
+    rr = RuleResult(rule, 'an encoder created without options overrides no section parameter, whatever encoders were created before it (fold of Encoder.__init__)')
+    init = repo.own_method('Encoder', '__init__')
+
+    class EI(Interp):
+        def on_call(self2, text, callee, args, kwargs, node, frame):
+            if text.startswith('super(') or text in ('SectionConfigurer', 'CompiledTemplateManager', 'TemplateCompiler'):
+                return None if text.startswith('super(') else Obj(text, {})
+            return self2.NOT_HANDLED
+    it = EI(repo, 'Encoder')
+
+    import ast
+    defaults = dict(zip(init.params[len(init.params) - len(init.defaults):], [ast.literal_eval(d) for d in init.defaults]))
+
+    def make(**kw):
+        res = it.run_function(init, lambda: dict(dict(defaults, self=Obj('Encoder', {})), **kw), self_class='Encoder')
+        ok = [r for r in res if r.ok]
+        if not ok:
+            raise AnalysisError('Encoder.__init__ could not be folded: %s' % [r.describe() for r in res][:2])
+        return [r.locals['self'] for r in ok]
+    first = make(master_table_version=31, master_table_number=9)
+    for e in first:
+        ov = it.load_attr(e, 'overrides', init.node, None)
+        rr.instance('Encoder(master_table_version=31, master_table_number=9).overrides = %r' % (ov,))
+        if ov != {'master_table_number': 9, 'master_table_version': 31}:
+            rr.fail('Encoder.__init__:overrides-requested', init.where, 'an encoder created with master_table_version=31, master_table_number=9 overrides %r' % (ov,))
+    for e in make():
+        ov = it.load_attr(e, 'overrides', init.node, None)
+        rr.instance('Encoder() created afterwards: overrides = %r' % (ov,))
+        if ov != {}:
+            rr.fail('Encoder.__init__:overrides-default', init.where,
+                    'an encoder created without options, after one created with master-table overrides, overrides %r: the identification section of what it '
+                    'encodes (e.g. a subset of a message) is rewritten' % (ov,))
+    rr.require_floor(2)
+    return rr
